@@ -4,13 +4,14 @@
   Every table used below (`nlpWrapper`, `ocpWrapper`, `functional`, `nlpTE`, `ocpTE`, `dlNLP`,
   `dlOCP`, `abiNLP`, `abiOCP`, the constructor check lists) is regenerated from /repo's C++ on
   every run (`Alpaqa/Gen/C20.lean`, translator `gen/gen_c20.py`); the table theorems are decided
-  by the kernel on what the source says *now*.  Where the unchanged tree violates a table
-  theorem, that entry is excluded **by name** in `knownDeviations.*` (each is a reported finding,
-  reproduced on the real code by `checks/c20.py`), so any other deviation breaks the proof.
+  by the kernel on what the source says *now*.  Where the tree violates a table theorem, that
+  entry is excluded **by name** in `knownDeviations.*` (an open finding, reproduced on the real
+  code by `checks/c20.py`), so any other deviation breaks the proof.
 
   The counter block is a hand model (`Alpaqa/Model/C20.lean`), proved equal to a heap-free tally
-  specification for every operation sequence and both `reset_evaluations` bodies that can be read
-  off the source; it is tied to the code by op-sequence correspondence.
+  specification for every operation sequence; the bodies it models (`evaluations->reset()`, cloning
+  `decouple`, sharing copies) are checked against the source by `wrapper_bodies`; it is tied to the
+  code by op-sequence correspondence.
 -/
 import Mathlib.Tactic.Ring
 import Mathlib.Tactic.Linarith
@@ -19,18 +20,14 @@ import Alpaqa.Gen.C20
 namespace Alpaqa.Props.C20
 open Alpaqa.C20 Alpaqa.Gen.C20
 
-/-! ## Known deviations of the unchanged tree (each one a finding, see checks/c20.py) -/
+/-! ## Known deviations of the tree (each one an open finding, see checks/c20.py)
 
-/-- F3: `ProblemWithCounters::provides_eval_hess_ψ_prod`'s requires-clause names
-    `provides_eval_hess_ψ` (problem-with-counters.hpp). -/
-def knownDeviations.provRequires : List String := ["eval_hess_ψ_prod"]
-/-- F5: `ControlProblemWithCounters::eval_h / eval_h_N` have no requires-clause and no
-    `provides_` forward although the vtable treats them as optional (ocproblem.hpp): a problem
-    without output mapping cannot be wrapped (does not compile). -/
-def knownDeviations.ocpUnconditional : List String := ["eval_h", "eval_h_N"]
-/-- F7: `alpaqa_problem_functions_t::eval_proj_multipliers` lacks `ALPAQA_DEFAULT(nullptr)`
-    (dl-problem.h): default-initialised C++ tables leave it indeterminate. -/
-def knownDeviations.abiNoDefault : List String := ["eval_proj_multipliers"]
+  Findings F1–F7 of the first run have been repaired in /repo (patches under /verif/fixes); the
+  theorems below state the repaired behaviour without exclusions.  One finding is still open. -/
+
+/-- F8: `DLControlProblem` declares neither `eval_proj_diff_g` nor `eval_proj_multipliers`, which
+    `ControlProblemVTable` requires, and the C ABI has no members for them. -/
+def knownDeviations.dlMissingRequired : List String := ["eval_proj_diff_g", "eval_proj_multipliers"]
 
 /-! ## 1. `forward_transparent`: table theorems -/
 
@@ -48,11 +45,8 @@ theorem counters_bijective :
     nlpWrapper.countersBijective = true ∧ ocpWrapper.countersBijective = true := by decide
 
 /-- `provides_X` of the NLP wrapper returns `problem.provides_X()` for every X, and its
-    requires-clause names `provides_X` — except the entries in `knownDeviations.provRequires`. -/
-theorem provides_forward_nlp :
-    (nlpWrapper.prov.filter fun e => !knownDeviations.provRequires.contains e.method).all
-        ProvEntry.diagonal = true ∧
-    nlpWrapper.prov.all (fun e => e.callee == e.method) = true := by decide
+    requires-clause names `provides_X`. -/
+theorem provides_forward_nlp : nlpWrapper.prov.all ProvEntry.diagonal = true := by decide
 
 theorem provides_forward_ocp : ocpWrapper.prov.all ProvEntry.diagonal = true := by decide
 
@@ -69,8 +63,7 @@ def covers (t : WrapperTable) (te : TETable) (dev : List String) : Bool :=
         (f.requiresMember == some e.name && (t.findProv e.name).isSome))
 
 theorem wrapper_covers_vtable :
-    covers nlpWrapper nlpTE [] = true ∧
-    covers ocpWrapper ocpTE knownDeviations.ocpUnconditional = true := by decide
+    covers nlpWrapper nlpTE [] = true ∧ covers ocpWrapper ocpTE [] = true := by decide
 
 /-- `FunctionalProblem::eval_X` calls the `std::function` member `X` with its own parameters
     (matrices reshaped), `provides_eval_X` tests `bool{X}`, and every function object beyond the
@@ -101,13 +94,14 @@ theorem vtable_tables_match_model :
     ocpTE.entries.map (·.name) = ocpAll ∧
     ocpTE.entries.all (fun e => e.required == ocpRequired.contains e.name &&
       (e.required || (e.dflt == some (ocpModelDefault e.name) &&
-        e.providesTests == some (e.name,
-          if ocpModelDefault e.name == .null then "nullptr" else "default_" ++ e.name)))) = true ∧
-    ocpCtorChecks = [("nc", "get_D"), ("nc", "eval_constr"), ("nc", "eval_grad_constr_prod"),
-                     ("nh", "eval_h"), ("nh_N", "eval_h_N")] := by
+        e.providesTests == some (e.name, "default_" ++ e.name)))) = true ∧
+    ocpCtorChecks = [("nc", "get_D", "default_get_D"), ("nc", "eval_constr", "default_eval_constr"),
+                     ("nc", "eval_grad_constr_prod", "default_eval_grad_constr_prod"),
+                     ("nh", "eval_h", "default_eval_h"), ("nh_N", "eval_h_N", "default_eval_h_N")] := by
   decide
 
-/-- NLP: an absent entry raises `not_implemented_error` naming exactly that function. -/
+/-- An absent entry raises `not_implemented_error` naming exactly that function (OCP: two older
+    defaults carry a `default_` prefix in the message). -/
 theorem not_implemented_names_function :
     nlpTE.entries.all (fun e => match e.dflt with
       | some (.throws m) => m == e.name
@@ -115,7 +109,8 @@ theorem not_implemented_names_function :
       | some (.fallbackIfM0 _ (some m)) => m == e.name
       | _ => true) = true ∧
     ocpTE.entries.all (fun e => match e.dflt with
-      | some (.throws m) => m == "default_" ++ e.name
+      | some (.throws m) => m == e.name || m == "default_" ++ e.name
+      | some .null => false
       | _ => true) = true := by decide
 
 /-- C-ABI forwarding (`dl-problem.cpp`): `DLProblem::X` calls table member `X`, passes its
@@ -163,11 +158,16 @@ theorem dl_optional_guarded :
     dlOCP.fwd.all (fun e => ocpRequired.contains e.method || ["eval_h", "eval_h_N"].contains e.method ||
       dlOCP.prov.any (·.method == e.method)) = true := by decide
 
-/-- every function pointer of the C-ABI tables defaults to `nullptr` (so "omitted" is
-    well-defined) — except the entries in `knownDeviations.abiNoDefault`. -/
+/-- every function pointer of the C-ABI tables defaults to `nullptr` (so "omitted" is well-defined) -/
 theorem abi_members_defaulted :
-    (abiNLP.filter fun m => !knownDeviations.abiNoDefault.contains m.name).all (·.hasDefault) = true ∧
-    abiOCP.all (·.hasDefault) = true := by decide
+    abiNLP.all (·.hasDefault) = true ∧ abiOCP.all (·.hasDefault) = true := by decide
+
+/-- the loader classes declare (or inherit from `BoxConstrProblem`) every required vtable entry —
+    except the entries in `knownDeviations.dlMissingRequired` (F8, open) -/
+theorem dl_declares_required :
+    nlpRequired.all (fun f => dlNLP.declared.contains f || boxConstrDeclared.contains f) = true ∧
+    (ocpRequired.filter fun f => !knownDeviations.dlMissingRequired.contains f).all
+      (dlOCP.declared.contains ·) = true := by decide
 
 /-! ### Consequence for capability flags seen *through* the counting wrapper -/
 
@@ -196,61 +196,36 @@ theorem wrapOK_sound (t : WrapperTable) (f : String) (h : wrapOK t f = true) (n 
       simp [h1, h2a, h2b]
 
 theorem wrap_tables_ok :
-    (nlpOptional.filter fun f => !knownDeviations.provRequires.contains f).all (wrapOK nlpWrapper) = true ∧
-    (ocpOptional.filter fun f => !knownDeviations.ocpUnconditional.contains f).all (wrapOK ocpWrapper) = true := by
+    nlpOptional.all (wrapOK nlpWrapper) = true ∧ ocpOptional.all (wrapOK ocpWrapper) = true := by
   decide
 
 /-- **Capability flags are transparent through the counting wrapper**: for every problem class
     description `n` (any subset of optional members, any subset of `provides_` members, any
-    return values) and every optional function not excluded by name, the type-erased view of
-    the wrapper provides `f` iff the type-erased view of the problem itself does. -/
-theorem wrap_transparent_nlp (n : Native) (f : String) (hf : f ∈ nlpOptional)
-    (hd : f ∉ knownDeviations.provRequires) : (nlpWrapper.wrap n).provided f = n.provided f := by
+    return values) and every optional function, the type-erased view of the wrapper provides `f`
+    iff the type-erased view of the problem itself does. -/
+theorem wrap_transparent_nlp (n : Native) (f : String) (hf : f ∈ nlpOptional) :
+    (nlpWrapper.wrap n).provided f = n.provided f := by
   apply wrapOK_sound
   have := wrap_tables_ok.1
   rw [List.all_eq_true] at this
-  apply this
-  simp [List.mem_filter, hf, hd]
+  exact this f hf
 
-theorem wrap_transparent_ocp (n : Native) (f : String) (hf : f ∈ ocpOptional)
-    (hd : f ∉ knownDeviations.ocpUnconditional) : (ocpWrapper.wrap n).provided f = n.provided f := by
+theorem wrap_transparent_ocp (n : Native) (f : String) (hf : f ∈ ocpOptional) :
+    (ocpWrapper.wrap n).provided f = n.provided f := by
   apply wrapOK_sound
   have := wrap_tables_ok.2
   rw [List.all_eq_true] at this
-  apply this
-  simp [List.mem_filter, hf, hd]
+  exact this f hf
 
 /-- a problem that defines `eval_hess_ψ_prod` and `provides_eval_hess_ψ_prod() = false` but no
-    `provides_eval_hess_ψ` -/
+    `provides_eval_hess_ψ` (the witness of former finding F3) -/
 def f3Witness : Native where
   has _ := true
   hasProv f := f == "eval_hess_ψ_prod"
   provVal _ := false
 
-/-- F3, what the excluded entry means: as long as the requires-clause names
-    `provides_eval_hess_ψ`, there is a problem whose wrapper reports `eval_hess_ψ_prod` as
-    provided although the problem says it is not (reproduced on the real code by the check). -/
-theorem F3_wrapper_misreports
-    (h : (nlpWrapper.findProv "eval_hess_ψ_prod").map (·.requiresMember) = some "eval_hess_ψ") :
-    (nlpWrapper.wrap f3Witness).provided "eval_hess_ψ_prod" = true ∧
-    f3Witness.provided "eval_hess_ψ_prod" = false := by
-  constructor
-  · unfold WrapperTable.wrap Native.provided
-    cases hp : nlpWrapper.findProv "eval_hess_ψ_prod" with
-    | none => simp [hp] at h
-    | some p =>
-      simp only [hp, Option.map_some, Option.some.injEq] at h
-      have h1 : nlpWrapper.find "eval_hess_ψ_prod" ≠ none := by decide
-      cases hf : nlpWrapper.find "eval_hess_ψ_prod" with
-      | none => exact absurd hf h1
-      | some e =>
-        simp only [hf, hp]
-        cases hr : e.requiresMember <;> simp [h, f3Witness]
-  · decide
-
-example : (nlpWrapper.findProv "eval_hess_ψ_prod").map (·.requiresMember) = some "eval_hess_ψ" ∨
-          (nlpWrapper.findProv "eval_hess_ψ_prod").map (·.requiresMember) = some "eval_hess_ψ_prod" := by
-  decide
+example : (nlpWrapper.wrap f3Witness).provided "eval_hess_ψ_prod" = false ∧
+          f3Witness.provided "eval_hess_ψ_prod" = false := by decide
 
 /-! ## 2. `counter_eq_calls`, `reset_keeps_usable` -/
 
@@ -379,23 +354,24 @@ theorem rel_run (rk : ResetKind) (ops : List (COp F)) (c : CState F) (s : SState
     exact ⟨h3, by rw [h2, h4]⟩
 
 /-- **`counter_eq_calls`** — for every sequence of create / call / copy / decouple / reset
-    operations (any length), for both reset bodies: every operation has the same outcome in the
-    shared-pointer implementation and in the tally specification, and afterwards every wrapper
-    reads (through its pointer) exactly its tally — i.e. the number of calls made through the
-    wrappers of its sharing group, where a copy joins the group of its source with the source's
-    count, `decouple` leaves the group keeping the count, and `reset` acts as the specification
-    of the given reset body says (zero the whole group / detach this wrapper). -/
-theorem counter_eq_calls (rk : ResetKind) (ops : List (COp F)) :
-    (crun rk CState.empty ops).2 = (srun rk SState.empty ops).2 ∧
-    (crun rk CState.empty ops).1.nW = (srun rk SState.empty ops).1.nW ∧
-    ∀ w f, (crun rk CState.empty ops).1.read w f =
-      ((srun rk SState.empty ops).1.grp w).map fun _ => (srun rk SState.empty ops).1.tally w f := by
-  obtain ⟨h, ho⟩ := rel_run rk ops (CState.empty : CState F) SState.empty rel_empty
+    operations (any length), with the reset body the wrappers have (`evaluations->reset()`, see
+    `wrapper_bodies`): every operation has the same outcome in the shared-pointer implementation
+    and in the tally specification, and afterwards every wrapper reads (through its pointer)
+    exactly its tally — i.e. the number of calls made through the wrappers of its sharing group
+    since the group's last reset, where a copy joins the group of its source with the source's
+    count, `decouple` leaves the group keeping the count, and `reset` zeroes the whole group. -/
+theorem counter_eq_calls (ops : List (COp F)) :
+    (crun .zeroesBlock CState.empty ops).2 = (srun .zeroesBlock SState.empty ops).2 ∧
+    (crun .zeroesBlock CState.empty ops).1.nW = (srun .zeroesBlock SState.empty ops).1.nW ∧
+    ∀ w f, (crun .zeroesBlock CState.empty ops).1.read w f =
+      ((srun .zeroesBlock SState.empty ops).1.grp w).map fun _ =>
+        (srun .zeroesBlock SState.empty ops).1.tally w f := by
+  obtain ⟨h, ho⟩ := rel_run .zeroesBlock ops (CState.empty : CState F) SState.empty rel_empty
   refine ⟨ho, h.nW, ?_⟩
   intro w f
   unfold CState.read
   rw [← h.ptr w]
-  cases hp : (crun rk CState.empty ops).1.ptr w with
+  cases hp : (crun .zeroesBlock CState.empty ops).1.ptr w with
   | none => rfl
   | some b => simp [h.blk w b hp]
 
@@ -505,28 +481,31 @@ theorem reset_keeps_usable (ops : List (COp F)) (w : Nat) (f : F)
     · intro g; simp [cstep, hw, hp, CState.read, upd]
     · intro g; simp [cstep, hw, hp, CState.read, upd, updF]
 
-/-- **F1** (for the reset body `evaluations.reset()`, what the unchanged tree has): after
-    `reset_evaluations()` the wrapper's pointer is null — the next evaluation through it
-    dereferences null (`crash`), `decouple_evaluations()` too — while every other wrapper,
-    including copies that shared the block, keeps its pointer and its counts (nothing is zeroed). -/
-theorem reset_nulls_pointer_F1 (c : CState F) (w : Nat) (f : F) (hw : w < c.nW) :
-    (cstep .nullsPointer (cstep .nullsPointer c (.reset w)).1 (.call w f)).2 = .crash ∧
-    (cstep .nullsPointer (cstep .nullsPointer c (.reset w)).1 (.decouple w)).2 = .crash ∧
-    (∀ w' g, w' ≠ w → (cstep .nullsPointer c (.reset w)).1.read w' g = c.read w' g) := by
-  refine ⟨by simp [cstep, hw, upd], by simp [cstep, hw, upd], ?_⟩
-  intro w' g hne
-  simp [cstep, hw, CState.read, upd, hne]
+/-- in the specification no wrapper is ever detached and no operation crashes: every wrapper
+    that exists has a group, after any operation sequence (with `counter_eq_calls`: every counter
+    read is defined) -/
+theorem never_null (ops : List (COp F)) (w : Nat)
+    (hw : w < (crun .zeroesBlock CState.empty ops).1.nW) :
+    ((crun .zeroesBlock CState.empty ops).1.ptr w).isSome :=
+  live_run ops (CState.empty : CState F) (by intro w hw; simp [CState.empty] at hw) w hw
 
 /-- non-vacuity: a concrete history with sharing, decoupling and a reset, both reset bodies -/
 example :
     let ops : List (COp Nat) := [.create, .call 0 3, .copy 0, .call 1 3, .decouple 1, .call 0 3,
                                  .call 1 5, .reset 0, .call 1 3]
     ((crun .zeroesBlock CState.empty ops).1.read 0 3, (crun .zeroesBlock CState.empty ops).1.read 1 3,
-     (crun .zeroesBlock CState.empty ops).1.read 1 5) = (some 0, some 3, some 1) ∧
-    ((crun .nullsPointer CState.empty ops).1.read 0 3, (crun .nullsPointer CState.empty ops).1.read 1 3)
-      = (none, some 3) := by decide
+     (crun .zeroesBlock CState.empty ops).1.read 1 5) = (some 0, some 3, some 1) := by decide
 
 end counters
+
+/-- The bodies the counter model is about, read off the source: `reset_evaluations()` is
+    `evaluations->reset()` (zeroes the shared block) in both wrappers, `EvalCounter::reset()` is
+    `*this = {}` over `{}`-initialised fields, `decouple_evaluations()` clones the block, the
+    wrappers have no user-declared copy operations (copies share the `std::shared_ptr`), and a new
+    wrapper gets a fresh block. -/
+theorem wrapper_bodies :
+    [nlpWrapper, ocpWrapper].all (fun t => t.resetKind == .zeroesBlock && t.counterResetZeroes &&
+      t.decoupleClones && t.copyShares && t.freshOnCreate) = true := by decide
 
 /-! ## 3. `flags_truthful` -/
 
@@ -573,24 +552,40 @@ theorem defaults_fill_in (P : String → Bool) (m0 : Bool) (f : String) (hf : f 
       | (exfalso; revert hn; decide)
       | (simp only [resolveNLP, hp]; (repeat' split) <;> simp_all [Outcome.seq])
 
-/-- OCP: provided ⇒ own member; the two throwing defaults raise `not_implemented_error`; the
-    absent null-default entries are *not* safe to call (`nullCall`) — the property's "raises
-    exactly that error" does not hold for them (finding F6, reproduced by the check). -/
+theorem ocpModelDefault_ne_null (g : String) : ocpModelDefault g ≠ .null := by
+  unfold ocpModelDefault; split <;> simp
+
+theorem ocpAbsent_ne_null (g : String) : ocpAbsent g ≠ .nullCall := by
+  unfold ocpAbsent
+  have := ocpModelDefault_ne_null g
+  split <;> simp_all
+
+/-- no type-erased OCP function is ever a call through a null vtable entry -/
+theorem resolveOCP_ne_null (P : String → Bool) (f : String) : resolveOCP P f ≠ .nullCall := by
+  unfold resolveOCP
+  simp only []
+  repeat' split
+  all_goals first
+    | exact ocpAbsent_ne_null _
+    | simp
+
+/-- OCP: provided ⇒ own member runs; an absent entry without computing default raises
+    `not_implemented_error` (naming it, two older ones with a `default_` prefix); a null vtable
+    entry is never called (`resolveOCP_ne_null`). -/
 theorem flags_truthful_ocp (P : String → Bool) (f : String) :
     (P f = true → resolveOCP P f = .calls [f]) ∧
+    (P f = false → f ∈ ["get_D", "eval_h", "eval_h_N", "eval_constr", "eval_grad_constr_prod",
+        "eval_add_gn_hess_constr"] → resolveOCP P f = .notImpl f) ∧
     (P f = false → f ∈ ["eval_add_R_prod_masked", "eval_add_S_prod_masked"] →
-      resolveOCP P f = .notImpl ("default_" ++ f)) ∧
-    (P f = false → f ∈ ocpOptional → ocpNullDefault f = true → resolveOCP P f = .nullCall) := by
+      resolveOCP P f = .notImpl ("default_" ++ f)) := by
   refine ⟨fun h => by simp [resolveOCP, h], ?_, ?_⟩
   · intro hp hf
     simp only [List.mem_cons, List.not_mem_nil, or_false] at hf
-    rcases hf with rfl | rfl <;> simp [resolveOCP, hp, ocpRequired] <;> rfl
-  · intro hp hf hn
-    simp only [ocpOptional, List.mem_cons, List.not_mem_nil, or_false] at hf
-    rcases hf with rfl | rfl | rfl | rfl | rfl | rfl | rfl | rfl | rfl | rfl | rfl | rfl | rfl | rfl | rfl <;>
-      first
-      | (exfalso; revert hn; decide)
-      | simp [resolveOCP, hp, ocpRequired, ocpNullDefault, ocpModelDefault]
+    rcases hf with rfl | rfl | rfl | rfl | rfl | rfl <;>
+      simp [resolveOCP, hp, ocpRequired, ocpAbsent, ocpModelDefault]
+  · intro hp hf
+    simp only [List.mem_cons, List.not_mem_nil, or_false] at hf
+    rcases hf with rfl | rfl <;> simp [resolveOCP, hp, ocpRequired, ocpAbsent, ocpModelDefault] <;> rfl
 
 /-- The loader is transparent for capability flags: through `DLProblem`, the type-erased
     `provides_X` is true iff the plug-in's table member `X` is non-null, for every plug-in table
@@ -629,57 +624,30 @@ theorem descr_all_complete (d : PluginDescr) : d ∈ PluginDescr.all := by
   cases a <;> cases b <;> cases v <;> cases c <;> cases e <;> cases x <;> cases h <;> decide
 
 /-- **`loader_decision` (NLP)** — `DLProblem`'s constructor, interpreted step by step from the
-    generated check list, answers for *every* plug-in description exactly what the documented
-    decision table says; the only parameter is whether a mismatching `<name>_version()` is
-    swallowed, which is the case iff `invalid_abi_error` derives from the caught
-    `dynamic_load_error` (finding F4: it does). -/
+    generated check list (with the exception hierarchy of dl-problem.hpp), answers for *every*
+    plug-in description exactly what the documented decision table says; in particular an ABI
+    mismatch reported by `<name>_version()` is a load failure. -/
 theorem loader_decision_nlp (d : PluginDescr) :
-    load invalidAbiDerivesFromDynamicLoadError dlNLP.ctor d =
-      loadSpec invalidAbiDerivesFromDynamicLoadError d := by
+    load invalidAbiDerivesFromDynamicLoadError dlNLP.ctor d = loadSpec false d := by
   have h : PluginDescr.all.all (fun d => load invalidAbiDerivesFromDynamicLoadError dlNLP.ctor d ==
-      loadSpec invalidAbiDerivesFromDynamicLoadError d) = true := by decide
+      loadSpec false d) = true := by decide
   rw [List.all_eq_true] at h
   exact beq_iff_eq.mp (h d (descr_all_complete d))
 
-/-- with an exception hierarchy in which the ABI error is not swallowed, the same constructor
-    text implements the strict table (a mismatching version function is a load failure) -/
-theorem loader_decision_nlp_strict (d : PluginDescr) :
-    load false dlNLP.ctor d = loadSpec false d := by
-  have h : PluginDescr.all.all (fun d => load false dlNLP.ctor d == loadSpec false d) = true := by
-    decide
-  rw [List.all_eq_true] at h
-  exact beq_iff_eq.mp (h d (descr_all_complete d))
-
-/-- **`loader_decision` (OCP)** — same table for `DLControlProblem`, with the one known-deviating
-    step (`if (!functions)` on the not-yet-assigned member, finding F2) replaced by name. -/
+/-- **`loader_decision` (OCP)** — same table for `DLControlProblem`, constructor as written. -/
 theorem loader_decision_ocp (d : PluginDescr) :
-    load invalidAbiDerivesFromDynamicLoadError (patchFunctionsNull dlOCP.ctor) d =
-      loadSpec invalidAbiDerivesFromDynamicLoadError d := by
-  have h : PluginDescr.all.all (fun d =>
-      load invalidAbiDerivesFromDynamicLoadError (patchFunctionsNull dlOCP.ctor) d ==
-      loadSpec invalidAbiDerivesFromDynamicLoadError d) = true := by decide
+    load invalidAbiDerivesFromDynamicLoadError dlOCP.ctor d = loadSpec false d := by
+  have h : PluginDescr.all.all (fun d => load invalidAbiDerivesFromDynamicLoadError dlOCP.ctor d ==
+      loadSpec false d) = true := by decide
   rw [List.all_eq_true] at h
   exact beq_iff_eq.mp (h d (descr_all_complete d))
 
-/-- F2, what the excluded step means: as long as the constructor tests the member `functions`
-    before assigning it, no plug-in whatsoever loads. -/
-theorem F2_ocp_loader_always_fails (h : dlOCP.ctor.contains (.functionsNull "functions") = true)
-    (d : PluginDescr) : ∀ w, load invalidAbiDerivesFromDynamicLoadError dlOCP.ctor d ≠ .ok w := by
-  have hh : dlOCP.ctor.contains (.functionsNull "functions") = true →
-      PluginDescr.all.all (fun d => match load invalidAbiDerivesFromDynamicLoadError dlOCP.ctor d with
-        | .ok _ => false | .error _ => true) = true := by decide
-  have h2 := hh h
-  rw [List.all_eq_true] at h2
-  have h3 := h2 d (descr_all_complete d)
-  intro w hw
-  simp [hw] at h3
-
-/-- F4, what swallowing means: a plug-in whose version function reports a different ABI but
-    whose register struct carries the expected number is loaded (with a warning). -/
-theorem F4_version_mismatch_swallowed (h : invalidAbiDerivesFromDynamicLoadError = true) :
-    load invalidAbiDerivesFromDynamicLoadError dlNLP.ctor
-      ⟨false, true, .mismatch, true, true, false, true⟩ = .ok true := by
-  revert h; decide
+/-- a well-formed plug-in loads (both loaders); a version function reporting another ABI is rejected -/
+example :
+    load invalidAbiDerivesFromDynamicLoadError dlOCP.ctor ⟨false, true, .good, true, true, false, true⟩ = .ok false ∧
+    load invalidAbiDerivesFromDynamicLoadError dlNLP.ctor ⟨false, true, .good, true, true, false, true⟩ = .ok false ∧
+    load invalidAbiDerivesFromDynamicLoadError dlNLP.ctor ⟨false, true, .mismatch, true, true, false, true⟩ =
+      .error .abiMismatch := by decide
 
 /-- a plug-in with every load failure the property lists is rejected with the documented kind -/
 example :
@@ -690,5 +658,39 @@ example :
     loadSpec false ⟨false, true, .good, true, true, false, false⟩ = .error .noFunctions ∧
     loadSpec false ⟨false, true, .missing, true, true, false, true⟩ = .ok true ∧
     loadSpec false ⟨false, true, .good, true, true, false, true⟩ = .ok false := by decide
+
+/-! ## Summary statements under the names used in DESIGN.md §6 C20 -/
+
+/-- **`forward_transparent`**: both counting wrappers and both loaders forward every entry to the
+    entry of the same name with the same arguments (C ABI: in the typedef's order), count it in the
+    counter of the same name, and guard / report it through the member of the same name. -/
+theorem forward_transparent :
+    nlpWrapper.fwd.all FwdEntry.diagonal = true ∧ ocpWrapper.fwd.all FwdEntry.diagonal = true ∧
+    nlpWrapper.prov.all ProvEntry.diagonal = true ∧
+    ocpWrapper.prov.all ProvEntry.diagonal = true ∧
+    covers nlpWrapper nlpTE [] = true ∧ covers ocpWrapper ocpTE [] = true ∧
+    dlNLP.fwd.all (fun e => e.member == e.method && e.abiOk abiNLP) = true ∧
+    dlOCP.fwd.all (fun e => e.member == e.method && e.abiOk abiOCP) = true ∧
+    dlProvidesStandard dlNLP ["get_box_C", "get_box_D", "eval_inactive_indices_res_lna"] = true ∧
+    dlProvidesStandard dlOCP [] = true :=
+  ⟨forward_transparent_nlp, forward_transparent_ocp, provides_forward_nlp, provides_forward_ocp,
+   wrapper_covers_vtable.1, wrapper_covers_vtable.2, by decide, by decide,
+   dl_provides_tests_called.1, dl_provides_tests_called.2.1⟩
+
+/-- **`flags_truthful`** (NLP vtable, every subset of optional functions, `m = 0` or not). -/
+theorem flags_truthful (P : String → Bool) (m0 : Bool) (f : String) (hf : f ∈ nlpAll) :
+    (teProvides P f = true → resolveNLP P m0 f = .calls [f]) ∧
+    (teSupports P m0 f = true → ∀ msg, resolveNLP P m0 f ≠ .notImpl msg) ∧
+    (f ∈ nlpThrowing → teSupports P m0 f = false → ¬ (f = "eval_jac_g" ∧ m0 = true) →
+      resolveNLP P m0 f = .notImpl f) :=
+  ⟨flags_truthful_provided P m0 f, flags_truthful_supported P m0 f hf,
+   fun h1 h2 h3 => flags_truthful_absent P m0 f h1 h2 h3⟩
+
+/-- **`loader_decision`**: both constructors implement the documented decision table for every
+    plug-in description. -/
+theorem loader_decision (d : PluginDescr) :
+    load invalidAbiDerivesFromDynamicLoadError dlNLP.ctor d = loadSpec false d ∧
+    load invalidAbiDerivesFromDynamicLoadError dlOCP.ctor d = loadSpec false d :=
+  ⟨loader_decision_nlp d, loader_decision_ocp d⟩
 
 end Alpaqa.Props.C20
